@@ -66,6 +66,8 @@ type callRec struct {
 	storeEr error
 	start   time.Time
 	out     atomic.Int32 // key-client calls in flight
+	// the caller's context may be cancelled while fetches are in flight
+	cancellable bool
 }
 
 type recKey struct{}
@@ -255,6 +257,12 @@ func (c *simClient) note(key string, rr ...*respRec) {
 }
 
 func (c *simClient) sleep(ctx context.Context, task, label string, d time.Duration) error {
+	if rec := recOf(ctx); rec != nil && rec.cancellable && d > 0 && c.w.r.T.Chance(500) {
+		// a server that answers in its own time, whether or not the caller
+		// still waits: the answer arrives after the cancellation
+		c.w.r.Probe("key_server_answers_after_caller_gave_up")
+		return c.w.s.Sleep(nil, task, label, d)
+	}
 	return c.w.s.Sleep(ctx, task, label, d)
 }
 
